@@ -135,23 +135,24 @@ def parseIntStr (s : String) : Option Int :=
 def MAX_INT : Int := 2147483647
 def MIN_INT : Int := -2147483648
 
-/-- `coerce_int`: strict bounds as in the code (`MIN_INT < n < MAX_INT`; finding A1 belongs to C07) -/
+/-- `coerce_int`: the closed 32-bit interval (`MIN_INT <= n <= MAX_INT`, after fix A1) -/
 def serializeInt (j : J) : Option J :=
   match j with
   | .bool b => some (.bool b)                    -- `isinstance(True, int)`
-  | .num n => if MIN_INT < n && n < MAX_INT then some (.num n) else none
+  | .num n => if MIN_INT ≤ n && n ≤ MAX_INT then some (.num n) else none
   | .str s =>
     match parseIntStr s with
-    | some n => if MIN_INT < n && n < MAX_INT then some (.num n) else none
+    | some n => if MIN_INT ≤ n && n ≤ MAX_INT then some (.num n) else none
     | none => none
   | _ => none
 
+/-- `coerce_float`; NaN and ±Infinity are rejected (fix X2): the field fails like any unserialisable value -/
 def serializeFloat (j : J) : Option J :=
   match j with
   | .num n => some (floatTag (toString n ++ ".0"))
   | other =>
     match isFloatTag other with
-    | some s => some (floatTag s)
+    | some s => if s == "nan" || s == "inf" || s == "-inf" then none else some (floatTag s)
     | none => none
 
 def serializeString (j : J) : Option J :=
@@ -332,7 +333,8 @@ def execute (s : SchemaD) (doc : Doc) (vars : Vars) (w : World) (opname : Option
     match rootType s op.kind with
     | none => .abort "operation"
     | some root =>
-      if op.kind == "subscription" then .failed (.internal "RuntimeError")
+      -- `execute` raises InvalidOperationError for subscriptions (fix X5): reported as a response error
+      if op.kind == "subscription" then .abort "operation"
       else
         match executeFields s doc vars w cf fuel root [] op.sels with
         | .ok (d, es) => .result d es
